@@ -45,8 +45,6 @@ PROP = dict(
         "representable in the width (sign bit + truncated magnitude, as the code does), Grow (capacity + n), Append "
         "(capacity raised to fit), Copy (cursor reset); for these `op_refines` says model = model, the independent content "
         "being only that the byte-level buffer arithmetic implements them without panic and keeps the invariant",
-        "WriteUnary is specified for n < 2^63 (Op.WF): for a uint n >= 2^63 the Go loop bound int(n) is negative and a single "
-        "0 is written (modelled, theorem writeUnary_huge_witness, corpus line)",
         "theorems named *_witness and the `example`s are closed literals evaluated by `decide`: tests that pin the old / "
         "limit behaviour, not universally quantified statements",
     ],
